@@ -97,6 +97,12 @@ def unread_results(ctx: Ctx, files: set[str] | None):
 def _make_dead(prop: str):
     def r_dead(ctx: Ctx) -> RuleResult:
         rr = RuleResult(f"R{prop[1:]}.unread", "every value bound to a local is read by the code that follows (no query is made and its answer dropped)", min_instances=0)
+        if "unread_total" not in ctx.cache:
+            ctx.cache["unread_total"] = sum(1 for _ in unread_results(ctx, None))
+        if ctx.cache["unread_total"] < 600:
+            from ..model import AnalysisError
+
+            raise AnalysisError(f"local-binding enumerator finds only {ctx.cache['unread_total']} bindings in the whole package (959 confirmed)")
         for f, s, name, unread in unread_results(ctx, anchor_files(prop)):
             rr.inst(nontrivial=False)
             if unread:
